@@ -262,6 +262,12 @@ def histStep (st : HState) (op : String) (a : List String) : HState × String :=
     match AL.get st.repo.staged (arg id) with
     | none => (st, "err:notFound")
     | some o => (st, showManifest o.inv o.files)
+  | "ls", [g] =>
+    let ids := st.repo.main.filter (fun e => g == "-" || globMatchU false (arg g) e.1)
+    (st, "ok " ++ " ".intercalate (sortStr (ids.map (fun e => encodeArg e.1 ++ ":v" ++ toString e.2.inv.head.number))))
+  | "lsstaged", [g] =>
+    let ids := st.repo.staged.filter (fun e => g == "-" || globMatchU false (arg g) e.1)
+    (st, "ok " ++ " ".intercalate (sortStr (ids.map (fun e => encodeArg e.1 ++ ":v" ++ toString e.2.inv.head.number))))
   | "ids", _ =>
     (st, "ok main=" ++ ",".intercalate (sortStr (st.repo.main.map (fun e => encodeArg e.1)))
       ++ " staged=" ++ ",".intercalate (sortStr (st.repo.staged.map (fun e => encodeArg e.1))))
@@ -271,6 +277,7 @@ def histStep (st : HState) (op : String) (a : List String) : HState × String :=
       | none => "-"
     (st, s!"ok main={h (AL.get st.repo.main (arg id))} staged={h (AL.get st.repo.staged (arg id))}")
   | "nondet", _ => (st, if st.nondet then "yes" else "no")
+  | "stopcompare", _ => ({ st with nondet := true }, "ok")
   | _, _ => (st, "bad-op")
 
 end Driver
